@@ -34,10 +34,17 @@ pub fn c19_seq() {
             _ => vsym::check("newer.never-refused", false),
         }
         let applied = match &before { Some(b) => after.version != b.version || after.value != b.value, None => true };
+        // the incoming write lost against a newer (or equally old) stored change: nothing may be written and nobody notified
+        let won = after.value == val;
+        if !won {
+            vsym::cover("newer.incoming-write-lost", true);
+            if let Some(b) = &before { vsym::check("newer.losing-write-changes-nothing", after.version == b.version && after.value == b.value && after.opp_id == b.opp_id); }
+        }
         match &before { Some(b) => { vsym::check("newer.version-only-grows", after.version >= b.version); if after.value != b.value { vsym::check("newer.version-grows-on-change", after.version > b.version); } }, None => {} }
         vsym::cover("newer.stale-write-seen", versioned && before.is_some() && ver < last_version);
         let notes = drain(&mut wrx);
-        if applied {
+        if !won { vsym::check("newer.no-notification-for-a-losing-write", notes.len() == 0); }
+        else if applied {
             vsym::check("newer.notified-once-per-applied-write", notes.len() == 2 && notes[0] == ["changed k ", &after.value, "\n"].concat());
         } else {
             vsym::check("newer.no-notification-without-change", notes.len() == 0);
